@@ -182,7 +182,9 @@ pub fn run_trial(seed: u64, delay_us: u64, mode: u8, nets: usize) -> i32 {
             });
             for (a, returned, rebound, closed, peers, sub_err, weak_dead, took) in res {
                 println!("SHUTDOWN addr={a} returned={returned} rebind_ok={rebound} closed={closed} peers={peers} subscribe_err={sub_err} weak_dead={weak_dead} took_ms={took} idle_bound_ms={idle_ms}");
-                if !(returned && rebound && closed && peers == 0 && sub_err && weak_dead) || took > idle_ms + 1_000 {
+                // (the duration is judged in virtual time by the simulated scenarios, not here: a
+                // wall-clock deadline on a loaded machine is not a verdict)
+                if !(returned && rebound && closed && peers == 0 && sub_err && weak_dead) {
                     code = 3;
                 }
             }
